@@ -93,6 +93,27 @@ def adjacent_program(rnd):
     return pg
 
 
+def end_programs(rnd):
+    """A = the instruction in front of the one the uninterrupted run ends at: brk, or an instruction with a failing assertion."""
+    p = [I("ldx", 1), I("inx"), I("brk")]
+    tiny = plain("tinyend", p, "inx", "inx")
+    src = '.test "t" {\n    ldx #1\n    inx\n    .assert cpu.x == 99 "boom"\n    nop\n    iny\n    brk\n}\n'
+    prog = [{"op": "ldx", "arg": 1}, {"op": "inx", "arg": 0}, {"op": "fail", "arg": 0}, {"op": "iny", "arg": 0}, {"op": "brk", "arg": 0}]
+    fail = {"name": "failassert", "prog": prog, "lines": [2, 3, 5, 6, 7], "source": src, "sets": {"A": [3], "B": [3], "None": []}}
+    return [tiny, fail]
+
+
+def twofile_program(rnd):
+    """The subroutine lives in lib.asm (imported behind the test): its lines are numbered 1000 + line."""
+    n = rnd.choice([2, 3])
+    main = '.test "t" {\n    ldx #%d\n    loop: jsr sub\n    dex\n    bne loop\n    brk\n}\n.import * from "lib.asm"\n' % n
+    lib = 'sub: iny\n    nop\n    rts\n'
+    prog = [{"op": "ldx", "arg": n}, {"op": "jsr", "arg": 6}, {"op": "dex", "arg": 0}, {"op": "bne", "arg": 2}, {"op": "brk", "arg": 0},
+            {"op": "iny", "arg": 0}, {"op": "nop", "arg": 0}, {"op": "rts", "arg": 0}]
+    return {"name": "twofile", "prog": prog, "lines": [2, 3, 4, 5, 6, 1001, 1002, 1003], "source": main, "files": {"lib.asm": lib},
+            "sets": {"A": [4], "B": [1002], "None": []}}
+
+
 def probe_program(rnd):
     """Long enough (in instructions) that a perturbed machine is still inside the loop 60-120 ms after configurationDone
     (the machine thread first sleeps up to 50 ms in its Launching branch): breakpoints installed DURING the free run."""
@@ -180,13 +201,15 @@ def run_worker(widx, mos, jobs, perturb, results, errors):
         for job in jobs:
             ws = os.path.join(d, "s%d" % job["id"])
             src = D.write_project(ws, job["source"])
+            for fn, text in job.get("files", {}).items():
+                open(os.path.join(ws, fn), "w").write(text)
             try:
-                s = D.ScriptSession(port, ws, src)
+                s = D.ScriptSession(port, ws, src, lines_default=job.get("linesDefault", False))
             except ConnectionError as e:
                 errors.append("worker %d: %s after %d sessions; stderr: %s; threads: %s" % (widx, e, n, " | ".join(l for l in m.stderr_text().splitlines() if "listening on port" not in l)[-900:], [(t["comm"], t["state"], t["wchan"]) for t in m.threads()]))
                 return
             s.run(job["bps0"], job["steps"])
-            results[job["id"]] = {"obs": D.observations(s.dap.log, s.probe_seqs), "failed": s.failed, "n": n, "worker": widx, "log": s.dap.log}
+            results[job["id"]] = {"obs": D.observations(s.dap.log, s.probe_seqs, s.alive_marks), "failed": s.failed, "n": n, "worker": widx, "log": s.dap.log}
             n += 1
         time.sleep(0.1)
     finally:
@@ -203,13 +226,16 @@ def design_level(rep, tier, devs):
     mc = os.path.join(SPEC, "MC_Debugger.tla")
     sfx = "_quick" if tier == "quick" else ""
     # the pinned reading: the deviations of the open findings; its properties are weakened only by the witness of an open PauseRace
-    ideal_inv = ["TypeOK", "StoppedIsHalted", "InspectConsistent", "NoSkippedBreakpoint", "NoSkipAfterProbe", "StepExact"]
+    ideal_inv = ["TypeOK", "StoppedIsHalted", "InspectConsistent", "NoSkippedBreakpoint", "NoSkipAfterProbe", "StepExact"]   # (StepEndsTest / files: own small configurations)
     impl_inv = ["TypeOK", "StoppedIsHalted_impl", "InspectConsistent_impl", "NoSkippedBreakpoint", "NoSkipAfterProbe", "StepExact_impl", "AtMostOneInFlight"]
     pcfg = os.path.join(V.workdir("C19-cfg"), "MC_Debugger_pinned%s.cfg" % sfx)
     with open(pcfg, "w") as f:
-        f.write("SPECIFICATION Spec\nCONSTANTS Lines <- Id7  Prog <- ProgLoopSub  BpSets <- %s  MaxReq = %d  Fuel = 40\nCONSTANT Deviations = %s\n" % (
+        f.write("SPECIFICATION Spec\nCONSTANTS LibLines <- NoLib  Lines <- Id7  Prog <- ProgLoopSub  BpSets <- %s  MaxReq = %d  Fuel = 40\nCONSTANT Deviations = %s\n" % (
             "Bps2" if tier == "quick" else "Bps3", 3 if tier == "quick" else 4, D.tla_set(devs)))
-        f.write("".join("INVARIANT %s\n" % i for i in (impl_inv if "PauseRace" in devs else ideal_inv)))
+        inv = impl_inv if "PauseRace" in devs else ideal_inv
+        if "SetBreakpointsForgetsOtherFiles" in devs:
+            inv = [i + "_files" if i in ("NoSkippedBreakpoint", "NoSkipAfterProbe") else i for i in inv]
+        f.write("".join("INVARIANT %s\n" % i for i in inv))
     runs = [("ideal", os.path.join(SPEC, "MC_Debugger_ideal%s.cfg" % sfx), "Deviations = {}: StoppedIsHalted, InspectConsistent, NoSkippedBreakpoint, NoSkipAfterProbe, StepExact")]
     if devs:
         runs.append(("pinned", pcfg, "Deviations = %s (open findings): the same properties%s" % (D.tla_set(devs), " weakened only by the race witness, AtMostOneInFlight" if "PauseRace" in devs else "")))
@@ -233,7 +259,7 @@ def design_level(rep, tier, devs):
         raise V.ToolError("MC_Debugger_dup failed:\n%s" % V.tail(r.out, 40))
     rep.notes.append("MC_Debugger_dup (one source line = two instructions, breakpoints by line): %d distinct states; all properties hold" % r.distinct)
     # counterexamples that must exist: the recorded findings as violations of the ideal reading, and vacuity witnesses
-    for name in ("push_ideal", "next_ideal", "next_ideal2"):
+    for name in ("push_ideal", "next_ideal", "next_ideal2", "stepend_ideal", "files_ideal"):
         r = V.tlc(mc, cfg=os.path.join(SPEC, "MC_Debugger_%s.cfg" % name), workers=3, timeout=600, tag="C19-mc-" + name)
         rep.add_tlc(r)
         if r.invariant_violated or r.rc != 0:
@@ -242,6 +268,9 @@ def design_level(rep, tier, devs):
     for name, what in (("race", "PauseRace: StoppedIsHalted fails on the implementation-shaped reading"),
                        ("race_insp", "PauseRace seen by the client: stackTrace/variables disagree"),
                        ("push", "StepOutReadsTopOfStack: StepExact fails when the subroutine pushed data"),
+                       ("cex_stepend", "StepSwallowsTestEnd: a step on brk does not end the test"),
+                       ("cex_stepfail", "StepSwallowsTestEnd: a step on a failing assertion does not end the test"),
+                       ("cex_files", "SetBreakpointsForgetsOtherFiles: a free run passes the other file's breakpoint"),
                        ("cex_next_recur", "NextIgnoresCallDepth: next over a recursive call stops inside the nested call"),
                        ("cex_next_adjacent", "NextIgnoresCallDepth: next over a call to the subroutine right behind it stops at its first instruction"),
                        ("self", "one-instruction loop: breakpoint not re-checked (NoSkippedBreakpoint fails)"),
@@ -272,6 +301,7 @@ def main(tier):
     jobs, meta = [], {}
     nprobe = 36 if tier == "quick" else 150
     picks = scripts if len(scripts) <= nsess else None
+    allscripts = scripts
     through = [c for c in scripts if c["family"] == "runthrough"]
     nextover = [c for c in scripts if c["family"] == "nextover"]
     evalmem = [c for c in scripts if c["family"] == "evalmem"]
@@ -281,7 +311,8 @@ def main(tier):
 
     def add(i, case, pg, kind, slow, late=False):
         bps0, steps = instantiate(case, pg, rnd, slow, late)
-        jobs.append({"id": i, "source": pg["source"], "bps0": bps0, "steps": steps, "kind": kind})
+        jobs.append({"id": i, "source": pg["source"], "files": pg.get("files", {}), "bps0": bps0, "steps": steps, "kind": kind,
+                     "linesDefault": case["family"] == "linesdefault"})
         meta[i] = {"prog": pg["prog"], "lines": pg["lines"], "fuel": 4000 if kind == "fast" else 400, "name": pg["name"], "case": case, "source": pg["source"]}
     for i in range(1, nsess + 1):
         add(i, picks[(i - 1) % len(picks)] if picks else rnd.choice(scripts), rnd.choice(programs(rnd)), "slow", True)
@@ -300,6 +331,22 @@ def main(tier):
         for mk in (recur_program, adjacent_program):
             i += 1
             add(i, case, mk(rnd), "slow", True)
+    fam = lambda name: sorted([c for c in allscripts if c["family"] == name], key=lambda c: json.dumps(c["script"]))
+    for case in fam("stepend"):
+        for pg in end_programs(rnd):
+            i += 1
+            add(i, case, pg, "slow", True)
+    for case in fam("twofile"):
+        for _ in range(3):
+            i += 1
+            add(i, case, twofile_program(rnd), "slow", True)
+    for case in fam("linesdefault"):
+        i += 1
+        add(i, case, programs(rnd)[0], "slow", True)
+    for case in fam("malformed"):
+        # each in a process of its own: on a tree where the request panics the handler the debug thread is gone afterwards
+        i += 1
+        add(i, case, programs(rnd)[0], "solo", True)
     for case in evalmem:
         # in a process of its own: on a tree where the read past $ffff panics the debug thread is gone afterwards
         i += 1
@@ -313,6 +360,9 @@ def main(tier):
             buckets[0].append(j)
         elif j["kind"] == "evalmem":
             buckets[1].append(j)
+        elif j["kind"] == "solo":
+            perturbs.append(None)
+            buckets.append([j])
         elif j["kind"] == "probe":
             buckets[3 + j["id"] % 3].append(j)        # the three slowest machines (>= 0.8 ms per instruction on average)
         else:
@@ -332,7 +382,8 @@ def main(tier):
     for i, r in sorted(results.items()):
         mt = meta[i]
         hooked += bool(r["hook"])
-        recs.append(V.clip_tree({"id": i, "prog": mt["prog"], "lines": mt["lines"], "base": BASE, "fuel": mt["fuel"], "obs": r["obs"], "hook": r["hook"], "devs": devs}))
+        recs.append(V.clip_tree({"id": i, "prog": mt["prog"], "lines": mt["lines"], "base": BASE, "fuel": mt["fuel"], "obs": r["obs"], "hook": r["hook"], "devs": devs,
+                                   "linesDefault": bool([j for j in jobs if j["id"] == i][0].get("linesDefault"))}))
     # binding self-test: one corrupted field in a known-good record must be rejected by the judge
     probe = None
     for rec in recs:
